@@ -225,6 +225,48 @@ theorem C17_no_handler_no_callback (c : Cfg) (ops : List Op) (hno : ∀ k, Op.re
     rw [this pre hpre] at hh
     cases hh
 
+/-- (7) liveness side of the timer model, under "the runtime eventually delivers the timer" (= the `expire` op
+    eventually occurs; that fairness of the Go runtime cannot be a theorem about `step`): an arming that has been
+    neither superseded (no later `arm`), nor already expired/left (`expire`/`reap` of that arming), with handler `k`
+    in force, IS called back — exactly for its round, to handler `k` — by the first `expire` of it at any
+    `now ≥ deadline`; in particular an arming whose deadline has already passed when it is made (`deadline ≤ t`,
+    a late duty start) is called back at once (`now := t`). Cancellation of the context in between does not disable
+    the expiry (it only additionally enables `reap`). With (1) this gives exactly one callback. -/
+theorem C17_every_arming_is_called_back_or_superseded (c : Cfg) (ops rest : List Op) (h r t k now : Nat)
+    (hk : handlerAfter none ops = some k)
+    (hq : ∀ op ∈ rest, quietFor (armings c ops).length op = true)
+    (hnow : deadline c h r t ≤ now) :
+    (step c (run c init (ops ++ Op.arm h r t :: rest)).1 (Op.expire (armings c ops).length now)).2
+      = some { id := (armings c ops).length, round := r, time := now, handler := k } := by
+  have hlog := run_log c init ops
+  have hn : (run c init ops).1.nextId = (armings c ops).length := by
+    have := hlog.2; simpa [init, armings] using this
+  have hh : (run c init ops).1.handler = some k := by rw [run_handler]; exact hk
+  -- state right after the arming
+  let p : Pend := { id := (armings c ops).length, round := r, deadline := deadline c h r t }
+  have hw0 : Waiting (step c (run c init ops).1 (Op.arm h r t)).1 p k := by
+    refine ⟨?_, rfl, ?_⟩
+    · simp [step, hn, p]
+    · simpa [step] using hh
+  have hrun : (run c init (ops ++ Op.arm h r t :: rest)).1
+      = (run c (step c (run c init ops).1 (Op.arm h r t)).1 rest).1 := by
+    rw [run_append]; simp [run]
+  have hw := waiting_run c _ p k rest hw0 hq
+  have hinv : Inv (run c init (ops ++ Op.arm h r t :: rest)).1 := inv_run c init _ inv_init
+  rw [← hrun] at hw
+  have hfind := find_of_nodup_ids _ p hw.mem hinv.pend_ids
+  have hnl : ¬ now < p.deadline := by simp [p]; omega
+  simp only [step]
+  rw [show (armings c ops).length = p.id from rfl, hfind]
+  simp only [hnl, if_false]
+  rw [hw.armed, hw.handler]
+  simp [p]
+
+/-- a late duty start: round 3's deadline (1400) has long passed when it is armed at 2000, another goroutine leaves,
+    the context is cancelled — the arming is still called back by its expiry at 2000 -/
+example : (step exCfg (run exCfg init ([.register (some 5), .arm 0 1 1000] ++ Op.arm 0 3 2000 :: [.expire 0 2000, .cancel])).1
+    (.expire 1 2000)).2 = some ⟨1, 3, 2000, 5⟩ := by decide
+
 /-! ### what the quantifier "armed for strictly increasing rounds" excludes
 The real timer never stops an earlier `time.Timer`; it only compares round VALUES at expiry. Outside the
 quantifier the statements above are false of the model (and of the code: the harness runs these points on the
